@@ -15,3 +15,14 @@ Theorem C19_code_ok_sound : forall mc cc, code_ok mc cc = true ->
   forall s c, In (s, c) mc <-> In (s, c) cc.
 Proof. exact code_ok_sound. Qed.
 Print Assumptions C19_code_ok_sound.
+
+(* Completeness: the validator raises no alarm when the boundary is fine (no side listed twice). *)
+Theorem C19_boundary_ok_complete : forall imports exports,
+  NoDup imports -> NoDup exports -> Bijective imports exports -> boundary_ok imports exports = true.
+Proof. exact boundary_ok_complete. Qed.
+Print Assumptions C19_boundary_ok_complete.
+
+Theorem C19_code_ok_complete : forall mc cc,
+  (forall s c, In (s, c) mc <-> In (s, c) cc) -> code_ok mc cc = true.
+Proof. exact code_ok_complete. Qed.
+Print Assumptions C19_code_ok_complete.
